@@ -250,7 +250,7 @@ func runC19(args []string) error {
 	var progs []c19Prog
 	progs = append(progs, c19Witnesses()...)
 	for i := 0; i < nMain+nWild; i++ {
-		progs = append(progs, c19Generate(root.fork(), i >= nMain))
+		progs = append(progs, c19Generate(root.fork(), i >= nMain, i))
 	}
 	for i := 0; i < nConc; i++ {
 		progs = append(progs, c19GenerateConc(root.fork()))
